@@ -7,6 +7,7 @@ from __future__ import annotations
 from .kinds import (
     BOOL,
     EID,
+    IDX,
     LAYER,
     META,
     NODE,
@@ -198,6 +199,8 @@ HELPER_PARAMS = {
     "_get_order": {"edge": union(SEQ_R, DEDGE_R)},
     "_get_nodes": {"edge": union(SEQ_R, DEDGE_R)},
     "_get_edge_size": {"edge": DEDGE_R},
+    # linalg: the incidence builder takes hyperedges already relabelled to row indices
+    "hye_list_to_binary_incidence": {"hye_list": Lst(Seq(IDX, False))},
 }
 
 # un-annotated receivers in client modules: these parameter names denote a plain Hypergraph unless the
@@ -216,3 +219,15 @@ POLYMORPHIC = {
 }
 
 # assumption A1 (DESIGN 2.B): node labels are not tuples; `isinstance(<NODE>, tuple)` folds to False.
+
+# client modules: parameters called `order` / `size` denote a hyperedge order / size, except where the word means
+# something else (motif order = number of nodes, numpy `size=` sample counts, EM model sizes)
+CLIENT_PARAM_BY_NAME = {"order": opt(ORDER), "size": opt(SIZE)}
+CLIENT_NAME_EXCLUDED_PREFIXES = (
+    "hypergraphx.motifs",
+    "hypergraphx.communities",
+    "hypergraphx.generation.hy_mmsbm_sampling",
+    "hypergraphx.filters.statistical_filters",
+    "hypergraphx.viz",
+    "hypergraphx.dynamics.synch",
+)
